@@ -13,12 +13,16 @@ import json
 import vlib
 
 
-def run_replay(ctx, cfg, every, gated=False, timeout=3000):
+def run_replay(ctx, cfg, every, gated=False, timeout=3000, restart=0):
     d = vlib.copy_specs(ctx, "mkvs")
     out = ctx.path("nodedb-%s-%s.json" % (cfg, gated))
     args = ["nodedb-replay", "-in", "-", "-out", out, "-every", str(every)]
     if gated:
         args.append("-gated")
+    if restart:
+        # environment steps: every `restart`-th replayed history that prunes also runs on disk; the database is closed, re-opened
+        # six times by a foreign writer (one more level-zero table each), re-opened and compacted after the first prune and at the end
+        args += ["-restart", str(restart)]
     vh = vlib.popen_vh(args)
     g = vlib.run_tlc(ctx, d, "MCNodeDB", cfg, timeout=timeout, sink=vh.stdin)
     vh.stdin.close()
@@ -28,8 +32,8 @@ def run_replay(ctx, cfg, every, gated=False, timeout=3000):
     s = json.load(open(out))
     if s["emitted"] != g.emitted or not g.emitted:
         raise vlib.Infra("%s: emitted %d, harness saw %d" % (cfg, g.emitted, s["emitted"]))
-    ctx.log("%s gated=%s: %d/%d behaviours, %d runs, %d steps, classes %s" % (
-        cfg, gated, s["behaviours"], s["emitted"], s["runs"], s["steps"], {k: v for k, v in s["classes"].items() if "declined" not in k}))
+    ctx.log("%s gated=%s: %d/%d behaviours, %d runs (%d with restarts and compaction), %d steps, classes %s" % (
+        cfg, gated, s["behaviours"], s["emitted"], s["runs"], s.get("restart_runs", 0), s["steps"], {k: v for k, v in s["classes"].items() if "declined" not in k}))
     return g, s
 
 
@@ -88,10 +92,10 @@ def run(ctx):
     ctx.coverage.update(states=tot_s, transitions=tot_t, exhaustive=True)
     ctx.log("design: %d generated, %d distinct" % (tot_t, tot_s))
     runs = []
-    runs.append(run_replay(ctx, "gen_nodedb_b.cfg", 36 if q else 2))
+    runs.append(run_replay(ctx, "gen_nodedb_b.cfg", 36 if q else 2, restart=2 if q else 1))
     runs.append(run_replay(ctx, "gen_nodedb_a.cfg", 60 if q else 3))
     runs.append(run_replay(ctx, "gen_nodedb_c.cfg", 1))          # up to four competing candidates in one version
-    runs.append(run_replay(ctx, "gen_nodedb_d.cfg", 2 if q else 1))          # one line of versions 0..3 over three keys, single writes
+    runs.append(run_replay(ctx, "gen_nodedb_d.cfg", 2 if q else 1, restart=12 if q else 2))          # one line of versions 0..3 over three keys, single writes
     # both root types with two competing candidates each: a version finalized with a state root and an IO root of which one was the
     # second candidate of its type (it has to be moved to the finalized place on pathbadger) and the other the first
     runs.append(run_replay(ctx, "gen_nodedb_e.cfg", 60 if q else 4))
